@@ -77,6 +77,42 @@ class HealthFilter:
         self._res.violation(key, detail, witness, extra)
 
 
+class SquidUnprivileged(Squid):
+    """Starts squid directly as `nobody`. The SMP master fork+execs its kids while its effective uid differs from its
+    real uid, which puts the kids into the dynamic linker's secure-execution mode where LD_PRELOAD is ignored; started
+    without privileges there is no uid switching and the interposer reaches workers and diskers."""
+    unprivileged = False
+
+    def start(self, init=True, timeout=40, extra_args=()):
+        if not self.unprivileged:
+            return Squid.start(self, init, timeout, extra_args)
+        # same steps as Squid.start(), with the process created as nobody:nogroup
+        import socket
+        args = (["--foreground"] if self.smp else ["-N"]) + list(extra_args)
+        self.out = open(f"{self.work}/stdout.txt", "ab")
+        self.proc = subprocess.Popen(self._cmd(*args), env=self._env(), stdout=self.out, stderr=subprocess.STDOUT, start_new_session=True, cwd=self.work,
+                                     user="nobody", group="nogroup", extra_groups=[])
+        t0 = time.time()
+        while time.time() - t0 < timeout:
+            if self.proc.poll() is not None:
+                raise RuntimeError(f"squid exited rc={self.proc.returncode} during start: " + self.tail_log())
+            try:
+                socket.create_connection(("127.0.0.1", self.port), timeout=0.5).close()
+                break
+            except OSError:
+                time.sleep(0.05)
+        else:
+            self.stop(kill=True)
+            raise RuntimeError("squid did not open its port: " + self.tail_log())
+        t1 = time.time()
+        while self.smp and time.time() - t1 < 15:
+            if self.log_text().count("Accepting HTTP Socket connections") >= self.smp:
+                break
+            time.sleep(0.1)
+        time.sleep(0.5)
+        return self
+
+
 def wkill_so(work):
     try:
         if os.path.exists(CACHED_SO) and os.path.getmtime(CACHED_SO) >= os.path.getmtime(SRC):
@@ -160,11 +196,21 @@ def run(a, res):
         sq._inited = True
 
     def one_run(tag, typ, nwrite, partial, pseed):
+        try:
+            return one_run_once(tag, typ, nwrite, partial, pseed)
+        except RuntimeError as e:
+            # squid neither came up nor was killed by the interposer (seen once under heavy machine load): harness retry
+            res.count("harness:start_retry")
+            res.note("start retry: " + str(e)[-300:])
+            return one_run_once(tag + "r", typ, nwrite, partial, pseed)
+
+    def one_run_once(tag, typ, nwrite, partial, pseed):
         """returns dict(T=counted writes, fired=bool, sq=Squid, prefix=path prefix, ...)"""
         smp, cd = TYPES[typ]
-        sq = Squid(a.work, conf=COMMON, smp=smp, cache_dirs=(cd,), name=None)
+        sq = SquidUnprivileged(a.work, conf=COMMON, smp=smp, cache_dirs=(cd,), name=None)
         prefix = f"/c16/{tag}"
         fresh_cache(sq, typ)
+        sq.unprivileged = bool(smp)
         for fn in ("wk.counter", "wk.log"):
             p = f"{sq.work}/{fn}"
             open(p, "wb").close()
@@ -182,8 +228,26 @@ def run(a, res):
             if not dead():
                 sq.stop(kill=True)
                 kill_registered(sq)
-                raise
+                try:
+                    extra = open(f"{sq.work}/stdout.txt", "rb").read().decode("latin1")[-600:]
+                except OSError:
+                    extra = ""
+                raise RuntimeError(f"{typ} write {nwrite}: {e} | stdout: {extra}")
             info["start_failed"] = True      # killed by the interposer during start-up writes: a legitimate crash point
+        if not info["start_failed"] and smp:
+            # SMP: workers answer before the disker is usable (and kids of an overloaded machine may still be restarting);
+            # store small probe objects until the interposer has seen the first cache write
+            for k in range(90):
+                if dead() or not sq.alive() or os.path.getsize(f"{sq.work}/wk.log") > 0:
+                    break
+                with lock:
+                    sizes[f"{prefix}/probe{k}"] = 3000 + k
+                try:
+                    fetch(sq.port, "GET", f"http://127.0.0.1:{org.port}{prefix}/probe{k}", req_id=f"{tag}.p{k}", timeout=10)
+                except OSError:
+                    pass
+                time.sleep(0.5)
+            tlog(tag, "disker ready after probes:", k)
         if not info["start_failed"]:
             for k, (op, ui, n) in enumerate(ops):
                 if dead() or not sq.alive():
@@ -228,6 +292,7 @@ def run(a, res):
         pre = {f"{prefix}/u{i}": completed_rids(f"{prefix}/u{i}") for i in range(NURLS)}     # frozen before the restart
         sq.cleanup_ipc()
         sq.env_extra = {}
+        sq.unprivileged = False
         before = sq.log_text().count("Finished rebuilding storage from disk")
         if liveness == "corrupt":
             corrupt_cache(sq)
@@ -345,7 +410,7 @@ def run(a, res):
         if info["T"] == 0:
             res.inconclusive.append(f"{typ}: the interposer counted no cache-file write")
         h = restart_and_verify(info, wit, ("no-crash",))
-        shutil.rmtree(info["sq"].work, ignore_errors=True)
+        (None if os.environ.get("C16_KEEP") else shutil.rmtree(info["sq"].work, ignore_errors=True))
         return h
 
     def gen_case(seed, i, ncases):
@@ -378,7 +443,7 @@ def run(a, res):
         kind = info["last"].split()[2] if len(info["last"].split()) > 2 else "?"
         fname = "swap.state" if "swap.state" in info["last"] else "data"
         restart_and_verify(info, wit, (info["fired"], c["partial"], phase, kind, fname, min(9, 10 * nwrite // max(1, T))))
-        shutil.rmtree(info["sq"].work, ignore_errors=True)
+        (None if os.environ.get("C16_KEEP") else shutil.rmtree(info["sq"].work, ignore_errors=True))
 
     if a.replay_data and "type" in a.replay_data:
         rd = a.replay_data
